@@ -28,9 +28,12 @@ def ensure_wt():
             sys.exit("cmake: " + r.stderr[-2000:])
 
 
+CXXFLAGS = ""
+
+
 def demo(src, tag):
     exe = "/tmp/seedchk_demo_%s" % tag
-    r = sh("g++ -std=c++20 -I%s/include %s -o %s" % (WT, src, exe))
+    r = sh("g++ -std=c++20 %s -I%s/include %s -o %s" % (CXXFLAGS, WT, src, exe))
     if r.returncode:
         return "compile-error", r.stderr[-1500:]
     r = sh("timeout 120 " + exe)
@@ -69,7 +72,10 @@ def main():
     ap.add_argument("--src"); ap.add_argument("--k"); ap.add_argument("--prop"); ap.add_argument("--id")
     ap.add_argument("--checks", default=None); ap.add_argument("--tier", default="quick")
     ap.add_argument("--skip-suite", action="store_true")
+    ap.add_argument("--cxxflags", default="")
     a = ap.parse_args()
+    global CXXFLAGS
+    CXXFLAGS = a.cxxflags
     d = os.path.join(SEEDED, a.id)
     ensure_wt()
     if a.cmd == "add":
@@ -77,7 +83,8 @@ def main():
         shutil.copy(os.path.join(a.src, "m%s.diff" % a.k), os.path.join(d, "patch.diff"))
         shutil.copy(os.path.join(a.src, "m%s_demo.cpp" % a.k), os.path.join(d, "demo.cpp"))
         notes = open(os.path.join(a.src, "m%s_notes.md" % a.k)).read() if os.path.exists(os.path.join(a.src, "m%s_notes.md" % a.k)) else ""
-        meta = {"id": a.id, "property": a.prop, "needs": notes, "source": "independent sub-agent given only the property text"}
+        meta = {"id": a.id, "property": a.prop, "needs": notes, "source": "independent sub-agent given only the property text",
+                "demo_cxxflags": a.cxxflags}
         rc0, out0 = demo(os.path.join(d, "demo.cpp"), a.id + "_0")
         meta["demo_on_clean_tree"] = rc0
         r = sh("git -C %s apply %s" % (WT, os.path.join(d, "patch.diff")))
